@@ -84,17 +84,20 @@ Definition ztake {A} (c : Z) (l : list A) : list A := if len l <=? c then l else
 Definition take_count {A} (count : option Z) (l : list A) : list A :=
   match count with Some c => ztake c l | None => l end.
 
-(** StreamData::range (stream.rs:276-308), as written: two binary searches, the
-    not-found end index is `idx - 1`, or 0 when idx = 0 *)
+(** StreamData::range (after the repair dc07967): start index = first entry >= start,
+    exclusive end index = number of entries <= end; nothing when that is 0 or not above
+    the start index *)
 Definition range_start_idx (es : list sentry) (st : sid) : Z := snd (bsearch st es).
-Definition range_end_idx (es : list sentry) (en : sid) : Z :=
+Definition range_end_excl (es : list sentry) (en : sid) : Z :=
   match bsearch en es with
-  | (true, i) => i
-  | (false, i) => if 0 <? i then i - 1 else 0
+  | (true, i) => i + 1
+  | (false, i) => i
   end.
 Definition st_range (es : list sentry) (st en : sid) (count : option Z) (reverse : bool) : list sentry :=
   let si := range_start_idx es st in
-  let hi := Z.min (range_end_idx es en) (Z.max (len es - 1) 0) in
+  let ee := range_end_excl es en in
+  if (ee =? 0) || (ee <=? si) then [] else
+  let hi := Z.min (ee - 1) (Z.max (len es - 1) 0) in
   let sel := if hi <? si then [] else zfirstn (hi - si + 1) (zskipn si es) in
   take_count count (if reverse then rev sel else sel).
 
@@ -103,12 +106,13 @@ Definition st_range_after (es : list sentry) (after : sid) (count : option Z) : 
   let si := match bsearch after es with (true, i) => i + 1 | (false, i) => i end in
   take_count count (zskipn si es).
 
-(** StreamId::generate_next_atomic with the clock reading [now_ms]:
-    a later millisecond gives (now,0); otherwise (prev_ms, seq+1) where the `+ 1`
-    is overflow-checked in the debug build: None = panic *)
+(** StreamId::generate_next_atomic (after the repair fb507d0) with the clock reading
+    [now_ms]: a later millisecond gives (now,0); otherwise (prev_ms, seq+1); when the
+    sequence is exhausted (prev_ms+1, 0); when that is exhausted too, None *)
 Definition gen_next (now_ms : Z) (s : stream) : option (sid * Z * Z) :=
   if s_ams s <? now_ms then Some ((now_ms, 0), now_ms, 0)
   else if s_aseq s + 1 <=? u64_max then Some ((s_ams s, s_aseq s + 1), s_ams s, s_aseq s + 1)
+  else if s_ams s + 1 <=? u64_max then Some ((s_ams s + 1, 0), s_ams s + 1, 0)
   else None.
 
 (** StreamData::add_auto: no comparison with last_id, push *)
@@ -157,9 +161,11 @@ Definition last_entry_id (s : stream) : option sid :=
 (** ------------------------------------------------------------------ *)
 (** * 3. Consumer groups                                                *)
 
-Definition new_group : group :=
-  {| g_last := sid_zero; g_by_id := []; g_by_consumer := []; g_consumers := [];
+(** ConsumerGroup::new (after the repair 542e5a3): the cursor starts at the requested position *)
+Definition mk_group (start : sid) : group :=
+  {| g_last := start; g_by_id := []; g_by_consumer := []; g_consumers := [];
      g_ncons := 0; g_total := 0; g_min := None; g_max := None |}.
+Definition new_group : group := mk_group sid_zero.
 
 (** in-place insert-or-replace on association lists *)
 Fixpoint aput {A} (k : bytes) (v : A) (l : list (bytes * A)) : list (bytes * A) :=
@@ -328,7 +334,16 @@ Definition st_read_group (now : Z) (s : stream) (g : group) (c : bytes) (after :
             else st_range_after (s_entries s) after count in
   match es with
   | [] => ([], g)
-  | _ => if noack then (es, g) else (es, g_add_pending now g c (map fst es))
+  | _ =>
+      if noack then
+        (* after the repair 18325a2: a ">" read still consumes the entries *)
+        (es, if sid_eqb after sid_max then
+               match rev es with
+               | l :: _ => if sid_ltb (g_last g) (fst l) then set_last g (fst l) else g
+               | [] => g
+               end
+             else g)
+      else (es, g_add_pending now g c (map fst es))
   end.
 
 (** byte-wise sorted association lists for replies in canonical order *)
@@ -406,7 +421,7 @@ Fixpoint parse_fields (l : list frame) (acc : fields) : option fields :=
     reading produces it; the reading is returned *)
 Definition auto_clock (s : stream) (oid : sid) : option Z :=
   if (s_ams s <? fst oid) && (snd oid =? 0) then Some (fst oid)
-  else if (fst oid =? s_ams s) && (snd oid =? s_aseq s + 1) then Some (s_ams s)
+  else if (fst oid =? s_ams s) && (snd oid =? s_aseq s + 1) && (s_aseq s + 1 <=? u64_max) then Some (s_ams s)
   else None.
 
 Definition oracle_sid (oracle : option frame) : option sid :=
@@ -426,14 +441,18 @@ Definition h_xadd (d : db) (parts : list frame) (oracle : option frame) : frame 
                 (* storage.xadd *)
                 let go (e : entry) (s : stream) :=
                   match oracle_sid oracle with
-                  | None => if s_aseq s + 1 <=? u64_max then (FError (bs "NOORACLE"), d) else (r_panic, d)
+                  | None =>
+                      (* no ID reported: the ID space is exhausted (every u64 clock reading is
+                         <= last_id_millis = u64::MAX), or the oracle is missing *)
+                      if (u64_max <? s_aseq s + 1) && (u64_max <? s_ams s + 1) then (r_err, d)
+                      else (FError (bs "NOORACLE"), d)
                   | Some oid =>
                       match auto_clock s oid with
                       | None => (FError (bs "BADAUTOID"), d)
                       | Some now_ms =>
                           match st_add_auto now_ms s f with
                           | Some (id, s') => (r_sid id, put_stream d k e s')
-                          | None => (r_panic, d)
+                          | None => (r_err, d)
                           end
                       end
                   end in
@@ -778,16 +797,19 @@ Definition h_xgroup_create (now : Z) (d : db) (parts : list frame) : frame * db 
   match nth_arg parts 2, nth_arg parts 3, nth_arg parts 4 with
   | Some k, Some gn, Some idb =>
       let mk := (5 <? nparts parts) && is_kw (nth_error parts 5) "MKSTREAM" in
+      (* after the repair 7f9490b: a malformed ID is refused before MKSTREAM creates the key *)
+      if negb (beq idb (bs "$")) && negb (beq idb (bs "0")) &&
+         (match sid_of_bytes idb with None => true | Some _ => false end) then (r_err, d) else
       let create (d1 : db) (e : entry) (s : stream) : frame * db :=
         let start :=
-          if beq idb (bs "$") then Some sid_zero          (* value unused: see Types.v *)
+          if beq idb (bs "$") then Some (match last_entry_id s with Some i => i | None => sid_zero end)
           else if beq idb (bs "0") || beq idb (bs "0-0") then Some sid_zero
           else sid_of_bytes idb in
         match start with
         | None => (r_err, d1)
-        | Some _ =>
+        | Some st =>
             if amem gn (s_groups s) then (r_busygroup, d1)
-            else (r_ok, put_stream d1 k e (set_groups s (s_groups s ++ [(gn, new_group)])))
+            else (r_ok, put_stream d1 k e (set_groups s (s_groups s ++ [(gn, mk_group st)])))
         end in
       match get_stream now d k with
       | (SStream e s, d1) => create d1 e s
@@ -1009,8 +1031,8 @@ Definition h_xpending (now : Z) (d : db) (parts : list frame) : frame * db :=
                             | None =>
                                 let st' := match st with Some i => i | None => sid_zero end in
                                 let en' := match en with Some i => i | None => sid_max end in
-                                (* BTreeMap::range panics when start > end *)
-                                if sid_ltb en' st' then (r_panic, d1)
+                                (* after the repair 8b811fd: an inverted range selects nothing *)
+                                if sid_ltb en' st' then (FArray [], d1)
                                 else (FArray (map (r_pending_row now) (ztake cnt (pel_range (g_by_id g) st' en'))), d1)
                             end
                         | None => (r_err, d1)
@@ -1195,3 +1217,31 @@ Definition exec_streams (now : Z) (d : db) (name : bytes) (parts : list frame) (
   else if beq name (bs "XPENDING") then Some (h_xpending now d parts)
   else if beq name (bs "XINFO") then Some (h_xinfo now d parts)
   else None.
+
+(** ---- WATCH (C08): the keys on which the engine calls mark_modified ----
+    xadd / xadd_with_id mark on success, xtrim / xdel when something was removed.  The
+    consumer-group commands never mark for what they do to the group (pending entries,
+    cursor, consumers live behind a shared Arc outside the engine: finding
+    stream-group-writes-unmarked); they mark only through storage.get removing an expired
+    key and through set_value of XGROUP CREATE ... MKSTREAM. *)
+Definition gone_keys (d d' : db) : list bytes :=
+  filter (fun k => negb (amem k (d_data d'))) (map fst (d_data d)).
+Definition fresh_keys (d d' : db) : list bytes :=
+  filter (fun k => negb (amem k (d_data d))) (map fst (d_data d')).
+(** removed as expired by storage.get and created again by MKSTREAM in the same command:
+    the entry lost its deadline (put_stream keeps deadlines); marked twice *)
+Definition reborn_keys (d d' : db) : list bytes :=
+  flat_map (fun ke : bytes * entry =>
+              match e_exp (snd ke), alookup (fst ke) (d_data d') with
+              | Some _, Some e' => match e_exp e' with None => [fst ke; fst ke] | Some _ => [] end
+              | _, _ => []
+              end) (d_data d).
+Definition marks_streams (d d' : db) (name : bytes) (parts : list frame) (reply : frame) : list bytes :=
+  let k1 := match nth_arg parts 1 with Some k => [k] | None => [] end in
+  if beq name (bs "XADD") then (match reply with FBulk _ => k1 | _ => [] end)
+  else if beq name (bs "XTRIM") || beq name (bs "XDEL") then
+    (match reply with FInt n => if 0 <? n then k1 else [] | _ => [] end)
+  else if beq name (bs "XGROUP") || beq name (bs "XREADGROUP") || beq name (bs "XACK") || beq name (bs "XCLAIM")
+          || beq name (bs "XPENDING") || beq name (bs "XINFO") then
+    gone_keys d d' ++ reborn_keys d d' ++ fresh_keys d d'
+  else [].
